@@ -114,7 +114,10 @@ def run(ctx):
     sub_witness = None
     while done < ncases and tries < ncases * 6 and ctx.time_left() > 30:
         tries += 1
-        case = evocases.gen_upgrade(ctx.rng, new_model=ctx.rng.choice([0, 0, 0, 1, 2]))
+        # the first two cases always create models (a model with a many-to-many field: three creation statements;
+        # then a single new model), the rest mostly do not
+        case = evocases.gen_upgrade(ctx.rng, new_model=(2 if done == 0 else 1 if done == 1 else
+                                                        ctx.rng.choice([0, 0, 0, 1, 2])))
         if case is None:
             continue
         seed = ctx.seed * 1009 + tries
